@@ -15,7 +15,9 @@ out = {}
 for cfg in ("A", "B", "C", "D", "E"):
     p = build.export_facts(cfg)
     txt = re.sub(r"\b(?:core|alloc)::", "std::", open(p).read())
-    out[cfg] = normalize.index_of(json.loads(txt))
+    dd = json.loads(txt)
+    out[cfg] = normalize.index_of(dd)
+    out["adts:" + cfg] = normalize.adt_index(dd)
     print(cfg, len(out[cfg]), "functions")
 out["_repo_commit"] = os.popen("git -C /repo log --format=%h -1").read().strip()
 json.dump(out, open(normalize.BASELINE, "w"), indent=0, sort_keys=True)
